@@ -27,10 +27,12 @@ def replay(col, case):
     spec = arr2(case["spec"])
     rep = {"abstract": {"c": case["c"], "k": case["k"], "grid": case["fg"]}}
     with patched(C, speed_of_light=c, boltzmann=k):
+        # "not effective" only if the functions still answer with the REAL constants
         try:
-            canary = close(em.frequency2wavelength(2.0), c / 2.0) and close(em.rayleighjeans(1.0, 1.0), 2 * k / c ** 2)
+            canary = not close(em.frequency2wavelength(2.0), 299792458.0 / 2.0, 1e-9) and \
+                not close(em.rayleighjeans(1.0, 1.0), 2 * 1.380649e-23 / 299792458.0 ** 2, 1e-6)
         except Exception:
-            canary = False
+            canary = True
         if not canary:
             col.bump("standin_constants_not_effective")
             return
